@@ -5,7 +5,7 @@ from ..cfg import witness
 from ..core import AnalysisError, u, walk_local
 from ..lib import construct, std_facts, def_of, copy_kind, returns_of, calls_of_node
 from .wrapper import WrapperModel
-from .common import allowed_stores, instance_state
+from .common import allowed_stores, instance_state, scope_copy_out
 
 
 def run(ctx):
@@ -28,44 +28,7 @@ def run(ctx):
   X = w.dstar[0] if w.dstar else None
   Xn = X.id if isinstance(X, ast.Name) else None
 
-  # ---- C04.isolate / per-call: store values reach the call only through deepcopy
-  dcs = [(n, t, src) for n, t, src in w.deepcopies if src == w.B or (Xn and t == Xn)]
-  if not dcs:
-    ctx.fail('C04.isolate', con,
-             'the bindings reach the wrapped call without copy.deepcopy (in the per-call wrapper): the callee receives the very '
-             'objects held in the binding store, so mutating a received list/dict changes what later calls, queries and config '
-             'strings see, and evaluated references nested in containers are not evaluated per call', w.loc(w.call_node), instance='deepcopy')
-  else:
-    dn = [n for n, _, _ in dcs]
-    esc = witness(g, w.get_node.id, [w.call_node.id], avoid=[n.id for n in dn])
-    ok = esc is None
-    # after the deepcopy nothing re-assigns the mapping from an uncopied source
-    late = []
-    for n, t, src in dcs:
-      reach = g.reachable_from(n.id) - {n.id}
-      for m in g.live_nodes():
-        if m.id in reach and m.kind == 'stmt' and isinstance(m.ast, ast.Assign) and u(m.ast.targets[0]) == t \
-            and g.reaches(m.id, w.call_node.id) and m.id != n.id:
-          late.append(m)
-      # updates from the *store* after the copy
-      for m in g.live_nodes():
-        if m.id in reach and m.kind == 'stmt' and isinstance(m.ast, ast.Expr) and isinstance(m.ast.value, ast.Call) \
-            and u(m.ast.value.func) == t + '.update' and u(m.ast.value.args[0]) != w.K:
-          late.append(m)
-    ctx.check(ok and not late, 'C04.isolate', con,
-              'every path from fetching the bindings to the wrapped call passes `copy.deepcopy` of the bindings, and nothing uncopied is merged in afterwards',
-              'the wrapped call can receive un-copied stored values%s' %
-              (': `%s` (line %d) after the copy' % (late[0].text(), late[0].lineno) if late else ' (a path bypasses the deepcopy)'),
-              w.loc(w.call_node), sites=len(g.live_nodes()), instance='deepcopy')
-    # substitutions into positional args use the copied mapping
-    subs = [n for n in g.live_nodes() if n.kind == 'stmt' and isinstance(n.ast, ast.Assign)
-            and isinstance(n.ast.targets[0], ast.Subscript) and w.star and u(n.ast.targets[0].value) == u(w.star[0])]
-    for sn in subs:
-      ok = witness(g, g.entry.id, [sn.id], avoid=[n.id for n in dn]) is None
-      src_ok = any(isinstance(c.func, ast.Attribute) and u(c.func.value) in {t for _, t, _ in dcs} for c in calls_of_node(sn)) or \
-          any(isinstance(x, ast.Subscript) and u(x.value) in {t for _, t, _ in dcs} for x in ast.walk(sn.ast.value))
-      ctx.check(ok and src_ok, 'C04.isolate', con, 'values substituted for REQUIRED positionals come from the deep-copied mapping',
-                'a value substituted into the positional arguments does not come from the deep-copied mapping', w.loc(sn), instance='positional-subst')
+  dcs = isolate(ctx, w, 'C04.isolate')
   ctx.hold('C04.per-call', con, 'the deepcopy (which evaluates references, T4) sits in the per-call closure gin_wrapper, not in the factory',
            f.loc(), instance='closure') if dcs else None
   fac_dc = [c for c in walk_local(w.factory.node) if isinstance(c, ast.Call) and u(c.func) in ('copy.deepcopy', 'deepcopy')]
@@ -170,3 +133,54 @@ def run(ctx):
   ok = bool(bare) and all(u(n.ast.value) == ds.params[0] + '.wrapper' for n in bare)
   ctx.check(ok, 'C04.scope', construct(ds), 'an unscoped reference yields the bare wrapper (runs under the ambient scope)',
             'an unscoped reference no longer yields the bare wrapper', ds.loc(), instance='unscoped')
+  scope_copy_out(ctx, 'C04.scope')
+  from .c15 import reference_delegate
+  reference_delegate(ctx, 'C04.reference')
+
+
+def isolate(ctx, w, rule):
+  """TAINT: stored values reach the wrapped call only through copy.deepcopy (per call)."""
+  prog = ctx.prog
+  f, g, facts = w.f, w.g, w.facts
+  con = construct(f)
+  X = w.dstar[0] if w.dstar else None
+  Xn = X.id if isinstance(X, ast.Name) else None
+  # ---- C04.isolate / per-call: store values reach the call only through deepcopy
+  dcs = [(n, t, src) for n, t, src in w.deepcopies if src == w.B or (Xn and t == Xn)]
+  if not dcs:
+    ctx.fail(rule, con,
+             'the bindings reach the wrapped call without copy.deepcopy (in the per-call wrapper): the callee receives the very '
+             'objects held in the binding store, so mutating a received list/dict changes what later calls, queries and config '
+             'strings see, and evaluated references nested in containers are not evaluated per call', w.loc(w.call_node), instance='deepcopy')
+  else:
+    dn = [n for n, _, _ in dcs]
+    esc = witness(g, w.get_node.id, [w.call_node.id], avoid=[n.id for n in dn])
+    ok = esc is None
+    # after the deepcopy nothing re-assigns the mapping from an uncopied source
+    late = []
+    for n, t, src in dcs:
+      reach = g.reachable_from(n.id) - {n.id}
+      for m in g.live_nodes():
+        if m.id in reach and m.kind == 'stmt' and isinstance(m.ast, ast.Assign) and u(m.ast.targets[0]) == t \
+            and g.reaches(m.id, w.call_node.id) and m.id != n.id:
+          late.append(m)
+      # updates from the *store* after the copy
+      for m in g.live_nodes():
+        if m.id in reach and m.kind == 'stmt' and isinstance(m.ast, ast.Expr) and isinstance(m.ast.value, ast.Call) \
+            and u(m.ast.value.func) == t + '.update' and u(m.ast.value.args[0]) != w.K:
+          late.append(m)
+    ctx.check(ok and not late, rule, con,
+              'every path from fetching the bindings to the wrapped call passes `copy.deepcopy` of the bindings, and nothing uncopied is merged in afterwards',
+              'the wrapped call can receive un-copied stored values%s' %
+              (': `%s` (line %d) after the copy' % (late[0].text(), late[0].lineno) if late else ' (a path bypasses the deepcopy)'),
+              w.loc(w.call_node), sites=len(g.live_nodes()), instance='deepcopy')
+    # substitutions into positional args use the copied mapping
+    subs = [n for n in g.live_nodes() if n.kind == 'stmt' and isinstance(n.ast, ast.Assign)
+            and isinstance(n.ast.targets[0], ast.Subscript) and w.star and u(n.ast.targets[0].value) == u(w.star[0])]
+    for sn in subs:
+      ok = witness(g, g.entry.id, [sn.id], avoid=[n.id for n in dn]) is None
+      src_ok = any(isinstance(c.func, ast.Attribute) and u(c.func.value) in {t for _, t, _ in dcs} for c in calls_of_node(sn)) or \
+          any(isinstance(x, ast.Subscript) and u(x.value) in {t for _, t, _ in dcs} for x in ast.walk(sn.ast.value))
+      ctx.check(ok and src_ok, rule, con, 'values substituted for REQUIRED positionals come from the deep-copied mapping',
+                'a value substituted into the positional arguments does not come from the deep-copied mapping', w.loc(sn), instance='positional-subst')
+  return dcs
